@@ -1,4 +1,4 @@
-// GENERATED on every run by vlib/extract.py from /tmp/refcheck-2660-r1-2_diff -- do not edit
+// GENERATED on every run by vlib/extract.py from /repo -- do not edit
 #![allow(unused_imports, unused_variables, unused_mut, dead_code, unused_parens, unused_braces, non_snake_case)]
 #![feature(allocator_api)]
 use vstd::prelude::*;
@@ -1844,7 +1844,7 @@ pub fn purl_from_str<T>(s: &str) -> (r: Result<GenericPurl<T>, <T as PurlShape>:
 where T: FromStr + PurlShape, <T as PurlShape>::Error: From<<T as FromStr>::Err>
     ensures parse_post::<T>(s@, r)
 { unimplemented!() }
-// ---- unit T.PurlVisitor  <= purl/src/parse.rs:321 ----
+// ---- unit T.PurlVisitor  <= purl/src/parse.rs:323 ----
 pub struct PurlVisitor<T>(pub PhantomData<T>);
 // ---- unit U-serde.serialize  <= purl/src/format.rs:91 ----
 impl<T> Serialize for GenericPurl<T>
@@ -1861,7 +1861,7 @@ impl<T> Serialize for GenericPurl<T>
             serializer.collect_str(self)
         }
     }
-// ---- unit U-serde.deserialize  <= purl/src/parse.rs:308 ----
+// ---- unit U-serde.deserialize  <= purl/src/parse.rs:310 ----
 impl<T> Deserialize for GenericPurl<T>
     where
         T: FromStr + PurlShape,
@@ -1879,7 +1879,7 @@ impl<T> Deserialize for GenericPurl<T>
             deserializer.deserialize_str(PurlVisitor(PhantomData))
         }
     }
-// ---- unit U-serde.visitor  <= purl/src/parse.rs:323 ----
+// ---- unit U-serde.visitor  <= purl/src/parse.rs:325 ----
 impl<T> Visitor for PurlVisitor<T>
     where
         T: FromStr + PurlShape,
